@@ -69,7 +69,7 @@ Inductive hop :=
 | HCopy (i : nat)
 | HFullLike (i : nat) (c : Qc)
 | HBin (b : C01.bop) (i : nat) (y : rhs)
-| HUn (u : C01.uop) (i : nat)
+| HUn (u : C01.uop) (i : nat) (inplace : bool)   (* -a / abs(a) / a.sign(); a.abs(inplace=True), a.sign(inplace=True) *)
 | HSumTo (i : nat) (xs : list dimarg)
 | HSumOver (i : nat) (xs : list dimarg)
 | HCast (i : nat) (target : dimset)
@@ -98,7 +98,11 @@ Definition step (vr : variant) (h : heap) (o : hop) : heap * outcome :=
       | HNum c => add_result h (C01.run (as_farr h a) (C01.OBin b (C01.ONum c)))
       | HNd _ => (h, Raised)
       end)
-  | HUn u i => with_obj i (fun a => add_result h (C01.run (as_farr h a) (C01.OUn u)))
+  | HUn u i inplace => with_obj i (fun a =>
+      match C01.run (as_farr h a) (C01.OUn u) with
+      | Ok r => if inplace then (rebind h i a (avals r), Done) else add_result h (Ok r)
+      | Err => (h, Raised)
+      end)
   | HSumTo i xs => with_obj i (fun a =>
       let fa := as_farr h a in
       match tuple_to_letters Qc fa xs with
